@@ -9,6 +9,7 @@ from rules import durability as D
 from rules import operators as OP
 from rules import builders as B
 from rules import tables as T
+from rules import recovery as R
 
 
 def run(ctx):
@@ -35,6 +36,7 @@ def run(ctx):
     ctx.run(B.nul6_mixed_buffer_keeps_row_slots)
     ctx.run(T.tbl17_constant_translation_is_inverse)
     ctx.run(OP.pan8_range_arithmetic)
+    ctx.run(R.cnd3_block_condition_implies_flush_condition)
     return ctx.finish(
         'Static analysis of compiler MIR: deadlock-freedom clauses (acyclic lock-order graph over '
         'all lock identities, no guard across blocking calls except tabled sites, paired condvar '
